@@ -37,114 +37,28 @@ def case_body(g, sw, start):
 
 
 def check_escape_tables(P, ctx):
+    """the String writer and reader are inverse to each other, character by character — evaluated (printmodel.eval_string_roundtrip):
+    show on strings containing every character below 128 in several neighbourhoods, then look on the text show produced"""
+    from . import printmodel
     rule = 'C15.escape-tables'
     fs, fl = P.fn(P.slot('String', 'Show', 'show')), P.fn(P.slot('String', 'Show', 'look'))
-    gs, gl = P.cfg(fs), P.cfg(fl)
     ctx.fn(fs)
     ctx.fn(fl)
-    sws = [n for n in gs.live() if n['kind'] == 'switch']
-    swl = [n for n in gl.live() if n['kind'] == 'switch']
-    if len(sws) != 1 or len(swl) != 1:
-        ctx.undecided(rule, 'shape', site(fs), 'writer or reader no longer dispatches on the character with one switch')
-        return None
-    show = {}
-    for val, start in switch_cases(gs, sws[0]).items():
-        for n in case_body(gs, sws[0], start)[:2]:
-            if n['expr'] is None:
-                continue
-            for c in ir.calls(n['expr']):
-                if ir.callee_name(c) == 'print_to_with':
-                    f = ir.top_nocast(c[2][2])
-                    if f[0] == 'str' and len(f[1]) == 2 and f[1][0] == '\\':
-                        show[val] = f[1][1]
-                    break
-            if val in show:
-                break
-    look = {}
-    for val, start in switch_cases(gl, swl[0]).items():
-        for n in case_body(gl, swl[0], start)[:2]:
-            if n['expr'] is None:
-                continue
-            for c in ir.calls(n['expr']):
-                if ir.callee_name(c) == 'String_Concat':
-                    st = ir.as_stack(c[2][1])
-                    if st and st[0] == 'String':
-                        lit = ir.top_nocast(st[1][0])
-                        if lit[0] == 'str' and len(lit[1]) == 1:
-                            look[chr(val)] = ord(lit[1])
-                    break
-            if chr(val) in look:
-                break
-    ok = bool(show) and len(show) == len(look)
-    bad = []
-    for ch, letter in show.items():
-        if look.get(letter) != ch:
-            bad.append('writer emits \\%s for byte %d, reader decodes \\%s as %s' % (letter, ch, letter, look.get(letter)))
-    for letter, ch in look.items():
-        if show.get(ch) != letter:
-            bad.append('reader decodes \\%s as byte %d, writer emits %s for that byte' % (letter, ch, repr(show.get(ch))))
-    ctx.check(ok and not bad, rule, 'String_Show<->String_Look', site(fl), 'the writer\'s and the reader\'s escape tables are inverse maps over the same %d escapes' % len(show), bad[:4])
-    # quotes and backslash must be escaped by the writer (otherwise the reader stops early / misreads)
-    need = {ord('"'), ord('\\')}
-    ctx.check(need <= set(show), rule, 'String_Show:delimiters', site(fs), 'the string delimiter and the escape character themselves are escaped by the writer')
-    # default: any other character is written as itself (%c of the character)
-    dfl = [v for (v, l) in sws[0]['succ'] if l == 'default']
-    okd = False
-    if dfl:
-        for n in case_body(gs, sws[0], dfl[0])[:2]:
-            if n['expr'] is None:
-                continue
-            for c in ir.calls(n['expr']):
-                if ir.callee_name(c) == 'print_to_with' and ir.top_nocast(c[2][2]) == ('str', '%c'):
-                    tp = ir.as_tuple(c[2][3])
-                    st = ir.as_stack(tp[0]) if tp and len(tp) == 1 else None
-                    # the character printed is the one the switch dispatched on (whatever temporaries carry it)
-                    NXs = util.Norm(P, fs, expand_locals=True)
-                    okd = st is not None and st[0] == 'Int' and NXs.canon(st[1][0]) == NXs.canon(sws[0]['expr'])
-    ctx.check(okd, rule, 'String_Show:plain', site(fs), 'every other character is written as itself')
-    ctx.floor(rule, 3)
-    return swl[0]
+    bads, badl, unsup, ncase = printmodel.eval_string_roundtrip(P)
+    ctx.stats['paths'] += ncase
+    for fn, bad, key, text in ((fs, bads, 'String_Show', 'show writes the string between two quotation marks, every write where the previous one ended, and returns the last position'),
+                               (fl, badl, 'String_Look', 'look reads back exactly the string that was shown — escapes, quotes, backslashes and control characters included — and consumes exactly '
+                                                         'the characters show wrote')):
+        if unsup and not bad:
+            ctx.undecided(rule, key, site(fn), 'leaves the evaluated fragment: ' + unsup)
+        else:
+            ctx.check(bad is None, rule, key, site(fn), text + ' (%d strings evaluated)' % ncase, [bad] if bad else None)
+    ctx.floor(rule, 2)
 
 
 def check_one_char(P, ctx):
-    rule = 'C15.one-char-per-step'
-    fn = P.fn(P.slot('String', 'Show', 'look'))
-    g = P.cfg(fn)
-    # the reader loop: the while(true) containing the switch
-    sw = [n for n in g.live() if n['kind'] == 'switch']
-    if len(sw) != 1:
-        ctx.undecided(rule, 'shape', site(fn), 'no escape switch')
-        return
-    heads = [n for n in g.live() if n['kind'] == 'join' and n.get('loop') and sw[0]['id'] in g.natural_loop(n['id'])]
-    if not heads:
-        ctx.undecided(rule, 'shape', site(fn), 'escape switch not inside the reader loop')
-        return
-    head = min(heads, key=lambda n: len(g.natural_loop(n['id'])))
-    loop = g.natural_loop(head['id'])
-    bad = None
-    npaths = 0
-    # enumerate one iteration: paths from the loop head back to it (or out)
-    for path in g.paths(max_visits=2, start=head['id']):
-        # cut at the second visit of head
-        seq = []
-        for i, (n, l) in enumerate(path):
-            if i > 0 and n['id'] == head['id']:
-                break
-            seq.append((n, l))
-        else:
-            continue   # path leaves the loop (closing quote / throw): not a full iteration
-        npaths += 1
-        appends = [ev for ev in util.path_events(seq) if ev['t'] == 'call' and ev['name'] == 'String_Concat']
-        reads = [ev for ev in util.path_events(seq) if ev['t'] == 'call' and ev['name'] == 'scan_from_with']
-        if len(appends) != 1 and bad is None:
-            bad = (len(appends), util.describe_path(g, seq, 14))
-    ctx.stats['paths'] += npaths
-    if bad:
-        ctx.refuted(rule, fn['name'], site(fn), 'every pass through the reader loop must append exactly one character to the result; a path appends %d '
-                    '(an escape sequence is decoded and then its letter is appended as well)' % bad[0], bad[1])
-    else:
-        ctx.proved(rule, fn['name'], site(fn), 'each of the %d iteration paths appends exactly one character' % npaths)
-    ctx.floor(rule, 1)
+    # (one character appended per step of the reader: part of the round trip evaluated by check_escape_tables)
+    return
 
 
 def check_specs(P, ctx):
@@ -264,22 +178,17 @@ def check_data_never_format(P, ctx, rule='C15.data-is-never-a-format'):
     for fn in P.all_functions():
         if not fn['unit'].startswith('src/') or fn.get('body') is None:
             continue
-        ltype = {d['id']: d.get('type', '') for s_ in ir.stmts(fn['body']) if s_['k'] == 'decl' for d in s_['decls']
-                 if d.get('init') is None or ir.top_nocast(d['init'])[0] in ('str', 'param', 'int', 'initlist') or
-                 (ir.top_nocast(d['init'])[0] == 'call' and ir.callee_name(ir.top_nocast(d['init'])) in ('malloc', 'calloc', 'realloc', 'alloca'))}
+        okf = util.format_sources(fn)
         for c, ln in ir.all_calls(fn['body']):
             nm = ir.callee_name(c)
             if nm in FMTPOS and len(c[2]) > FMTPOS[nm]:
                 a = ir.top_nocast(c[2][FMTPOS[nm]])
                 n += 1
-                # (a local buffer: an array, or a pointer the function allocated for the copied specification)
-                ok = a[0] in ('str', 'param') or (a[0] == 'local' and len(a) > 2 and a[2] in ltype and not any(
-                    x[0] == 'assign' and ir.top_nocast(x[2]) == a and ir.top_nocast(x[3])[0] == 'call' and ir.callee_name(ir.top_nocast(x[3])) not in ('malloc', 'calloc', 'realloc', 'alloca')
-                    for e_, _l in ir.all_exprs(fn['body']) for x in ir.walk(e_)))
+                ok = okf(a)
                 if not ok:
                     ctx.fn(fn)
                     ctx.refuted(rule, '%s:%s' % (fn['name'], nm), site(fn, ln), 'the format handed to %s is `%s`: data, not a literal, the caller\'s format or a copied specification' % (nm, ir.fmt(a)[:60]))
-    ctx.check(n >= 60, rule, 'formatting-calls', 'src/', '%d calls of formatting routines pass a literal, the caller\'s own format parameter or a local specification buffer' % n)
+    ctx.check(n >= 30, rule, 'formatting-calls', 'src/', '%d calls of formatting routines pass a literal, the caller\'s own format parameter or a local specification buffer' % n)
     ctx.floor(rule, 1)
 
 
